@@ -928,10 +928,11 @@ impl Bgi {
     }
 
     fn find_line(&self, x: i32, y: i32, border: u8) -> Option<LineInfo> {
-        // find end pixel
-        let mut endx = self.viewport.get_width();
+        // find end pixel (a viewport wider than the window must not carry the scan past the end of the row)
+        let width = self.viewport.get_width().min(self.window.width);
+        let mut endx = width;
         let mut pos = y * self.window.width + x;
-        for ex in x..self.viewport.get_width() {
+        for ex in x..width {
             let col = self.screen[pos as usize];
             pos += 1;
             if col == border {
